@@ -37,7 +37,24 @@ func (p presetVary) ServeHTTP(w http.ResponseWriter, r *http.Request) {
 	if len(p.vals) > 0 {
 		w.Header()["Vary"] = p.vals
 	}
+	// ... and, as outer layers do, response headers that have nothing to do with CORS; which ones is a function of the
+	// preset alone, so both requests of a pair meet the same ones
+	// (lesson of seeded change C10-q: the middleware's Vary addition skipped behind a pre-set `Cache-Control: no-store`)
+	for k, v := range unrelatedPresets[hashString("unrelated|"+strings.Join(p.vals, "\x00"))%uint64(len(unrelatedPresets))] {
+		w.Header()[k] = append([]string(nil), v...)
+	}
 	p.next.ServeHTTP(w, r)
+}
+
+var unrelatedPresets = []http.Header{
+	{},
+	{"Cache-Control": {"no-store"}},
+	{"Cache-Control": {"private, no-cache, no-store, must-revalidate"}, "Pragma": {"no-cache"}, "Expires": {"0"}},
+	{"Content-Type": {"application/json"}, "Content-Encoding": {"gzip"}},
+	{"Cache-Control": {"public, max-age=3600"}, "Etag": {`"v1"`}, "Last-Modified": {"Mon, 05 Oct 2026 00:00:00 GMT"}},
+	{"Set-Cookie": {"a=b; Secure"}, "Connection": {"close"}, "X-Frame-Options": {"DENY"}},
+	{"Surrogate-Control": {"no-store"}, "Cdn-Cache-Control": {"no-store"}, "Age": {"0"}, "Cross-Origin-Resource-Policy": {"same-origin"}},
+	{"Timing-Allow-Origin": {"*"}, "Cross-Origin-Opener-Policy": {"same-origin"}, "Content-Security-Policy": {"default-src 'none'"}},
 }
 
 func outerSliceIntact(shared, pristine []string) bool {
